@@ -194,38 +194,47 @@ class Trial:
         self.before, self.after = before, after
 
 
-def trace(mc, nsteps: int, snap=None, on_trial=None, at_yield=None):
+def trace(mc, nsteps: int, snap=None, on_trial=None, at_yield=None, resnap=False):
     """Drive ``mc.irun(nsteps)`` trial by trial.
 
     ``MonteCarlo.step`` yields the move name *before* performing it, so the code that
     runs between two consecutive yields is exactly one trial.  ``snap(mc)`` is called at
-    every yield and when the step generator ends; ``on_trial(Trial)`` is called with the
-    snapshots surrounding each trial and its verdict from ``mc.move_history``.
-    ``at_yield(mc)`` runs at every yield after the snapshot (hostile perturbations).
+    every yield and when the step generator ends; ``on_trial(Trial)`` is called as soon as
+    the trial is over (at the next yield / at the end of the step generator, i.e. while
+    the simulation is exactly in the post-trial state) with the snapshots surrounding the
+    trial and its verdict from ``mc.move_history``.  ``at_yield(mc)`` runs at every yield
+    after that (hostile perturbations).  With ``resnap`` the 'before' snapshot of the next
+    trial is taken again after ``on_trial`` (for monitors that annotate the atoms).
     """
     snap = snap or (lambda m: None)
     ntr = 0
     for step in mc.irun(nsteps):
         stepno = mc.step_count
         gen = iter(step)
-        names: list[str] = []
-        snaps = []
+        k = -1
+        prev_name = None
+        prev_snap = None
         while True:
             try:
                 nm = next(gen)
+                done = False
             except StopIteration:
-                snaps.append(snap(mc))
+                done = True
+            s = snap(mc)
+            if prev_name is not None:
+                hist = mc.move_history
+                verdict = hist[k][1] if k < len(hist) else "missing"
+                if on_trial is not None:
+                    on_trial(Trial(stepno, k, prev_name, verdict, prev_snap, s))
+                    if resnap:
+                        s = snap(mc)
+                ntr += 1
+            if done:
                 break
-            snaps.append(snap(mc))
-            names.append(str(nm))
+            prev_name, prev_snap = str(nm), s
+            k += 1
             if at_yield is not None:
                 at_yield(mc)
-        hist = list(mc.move_history)
-        for k, nm in enumerate(names):
-            verdict = hist[k][1] if k < len(hist) else "missing"
-            if on_trial is not None:
-                on_trial(Trial(stepno, k, nm, verdict, snaps[k], snaps[k + 1]))
-            ntr += 1
     return ntr
 
 
@@ -433,3 +442,28 @@ def selftest_calc(calc_factory, atoms: Atoms, h: float = 1e-5, tol: float = 1e-6
     if worst > tol * max(1.0, np.abs(f).max()):
         raise AssertionError(f"harness calculator self-test failed: force error {worst}")
     return worst
+
+
+# --------------------------------------------------------------------------- exchange-call counter
+EXCH = {"ok": 0, "second_started": False, "installed": False}
+
+
+def install_exchange_counter():
+    """Count successful ExchangeMove calls (class-attribute wrap); monitors read and reset EXCH['ok'] per trial
+    to recognise the history 'two exchange moves succeeded inside one plain composite trial'."""
+    if EXCH["installed"]:
+        return
+    from quansino.moves.exchange import ExchangeMove
+
+    orig = ExchangeMove.__dict__["__call__"]
+
+    def call(self, context):
+        if EXCH["ok"] >= 1:
+            EXCH["second_started"] = True  # a second exchange move starts in a trial where one already acted
+        out = orig(self, context)
+        if out:
+            EXCH["ok"] += 1
+        return out
+
+    ExchangeMove.__call__ = call
+    EXCH["installed"] = True
